@@ -206,3 +206,38 @@ def sl(obj, lo, hi, step):
             return b''
         return SBuf(list(SBuf.of(bytes(obj))))[lo:hi:step]
     return obj[lo:hi:step]
+
+
+class SFmt(object):
+    ''' Result of "template" % args with symbolic arguments: an opaque text value. '''
+
+    def __init__(self, template, args):
+        self.template = template
+        self.args = args
+
+    @property
+    def __class__(self):
+        return str
+
+    def __eq__(self, o):
+        if isinstance(o, SFmt) and type(o) is SFmt:
+            return self.template == o.template and all(bool(a == b) for a, b in zip(self.args, o.args))
+        return False
+
+    def __ne__(self, o):
+        return not self.__eq__(o)
+
+    def __hash__(self):
+        return hash(self.template)
+
+    def __repr__(self):
+        return 'SFmt(%r, %r)' % (self.template, self.args)
+
+    def __str__(self):
+        return '<sym-text>'
+
+
+def fmt(template, args):
+    if has_sym(args):
+        return SFmt(template, args if isinstance(args, tuple) else (args,))
+    return template % args
